@@ -66,7 +66,7 @@ func init() {
 	})
 	register("C12", func(r *Run) error {
 		return runB(r, &BSpec{
-			ID: "C12", Profiles: []string{"errors"},
+			ID: "C12", Profiles: []string{"errors"}, Gen: withLR([]string{"errors"}, 4, false),
 			Grammars: [2]int{96, 1600}, Cases: [2]int{600, 1200}, Variants: plainAndOptimized,
 			Rule:        "grammars from profile errors (no code blocks, many terminals starting at the same offset on different paths, ! and !! nesting, !.), failing inputs from derivation sampling + edits; compared: exactly one error, its offset/line:col = farthest failing terminal start, message = 'no match found, expected: ' + sorted unique wants with !-prefixed inverted ones and EOF last. Non-trivial = failed parse with offset>0 or >=2 expected or an inverted entry.",
 			Assumptions: commonAssumptions,
@@ -109,7 +109,7 @@ func init() {
 	})
 	register("C16", func(r *Run) error {
 		return runB(r, &BSpec{
-			ID: "C16", Profiles: []string{"diverging", "codeblocks", "diverging", "core"},
+			ID: "C16", Profiles: []string{"diverging", "codeblocks", "diverging", "core"}, Gen: withLR([]string{"diverging", "codeblocks", "diverging", "core"}, 5, false),
 			Grammars: [2]int{96, 1600}, Cases: [2]int{400, 800}, Variants: plainAndOptimized,
 			Rule:        "grammars from profiles diverging (repetitions over bodies that can succeed without consuming: (e?)*, (&e)+, (!.)*) and codeblocks/core; rapid draws (entry, input, Memoize/Debug/Statistics/AllowInvalidUTF8, a budget n relative to the need N of the unbounded parse: 1, N-1, N, N+1, N/2, a fraction, 2N+7; fixed budgets for diverging cases); relations: the call returns (watchdog 20 s); n>=N => result identical to the unbounded parse; n<N or diverging => nil value and the 'max number of expressions parsed' error last; code-block events <= n and Stats.ExprCnt <= n+1; without Memoize the complete error list equals the reference's run under the same budget and Stats.ExprCnt of the unbounded run equals the reference count. Non-trivial = n<N or a diverging case.",
 			Assumptions: commonAssumptions,
@@ -136,7 +136,7 @@ func init() {
 	})
 	register("C09", func(r *Run) error {
 		return runB(r, &BSpec{
-			ID: "C09", Profiles: []string{"optbait", "optbait", "codeblocks"},
+			ID: "C09", Profiles: []string{"optbait", "optbait", "codeblocks", "throwrecover"},
 			Grammars: [2]int{96, 1600}, Cases: [2]int{500, 1000},
 			Variants: func(i int, g *gspec.Grammar) []batch.Variant {
 				// Tweak already restricted g.Entries to the protected subset of this grammar
@@ -218,18 +218,22 @@ func init() {
 func init() {
 	register("C18", func(r *Run) error {
 		return runB(r, &BSpec{
-			ID: "C18", Race: true, Grammars: [2]int{40, 400}, Cases: [2]int{50, 120},
+			ID: "C18", Race: true, Grammars: [2]int{48, 480}, Cases: [2]int{50, 120},
 			Gen: func(r *Run, i int, seed int) *gspec.Grammar {
-				switch i % 4 {
+				switch i % 6 {
 				case 0, 1:
 					return gspec.GrammarGen(gspec.Profile("stateful")).Example(seed)
 				case 2:
 					return gspec.GrammarGen(gspec.Profile("memo")).Example(seed)
+				case 3:
+					return gspec.GrammarGen(gspec.Profile("throwrecover")).Example(seed)
+				case 4:
+					return gspec.GrammarGen(gspec.Profile("utf8")).Example(seed)
 				}
 				return gspec.LRGrammarGen(true).Example(seed)
 			},
 			Variants: plainAndOptimized,
-			Rule:     "stateful, memoizing and left-recursive grammars, parsers built with the race detector (-race, GORACE=halt_on_error=1); rapid draws per case 2-32 jobs (entry, input, Memoize/Statistics, InitState seeds incl. a Cloner list, plan) and GOMAXPROCS in {2,4,16}; every job is first run alone, then all jobs are started together from a barrier; oracle: each concurrent result (value, error text, complete code-block trace incl. state and globalStore snapshots) equals the result of the same job run alone, and the race detector stays silent (any report is a violation). Non-trivial = a case in which the execution windows of at least two jobs overlapped (measured).",
+			Rule:     "stateful, memoizing, throw/recover, utf8 and left-recursive grammars (the concurrent calls of a case come BEFORE the sequential ones that compute the expected results: the first calls a process makes into a parser package are concurrent ones), parsers built with the race detector (-race, GORACE=halt_on_error=1); rapid draws per case 2-32 jobs (entry, input, Memoize/Statistics, InitState seeds incl. a Cloner list, plan) and GOMAXPROCS in {2,4,16}; every job is first run alone, then all jobs are started together from a barrier; oracle: each concurrent result (value, error text, complete code-block trace incl. state and globalStore snapshots) equals the result of the same job run alone, and the race detector stays silent (any report is a violation). Non-trivial = a case in which the execution windows of at least two jobs overlapped (measured).",
 			Assumptions: append([]string{"interleavings are sampled by stress under the race detector, not enumerated: a race that needs a rare schedule can be missed"}, commonAssumptions...),
 		})
 	})
